@@ -188,15 +188,40 @@ func genCase(t *rapid.T, env *ev.Env) Case {
 	// the first ops after the bucket creation (index 2.., i.e. after the initial configurations are set):
 	// optionally a versioning state for bucket 0, then two puts so that later copies / tagging / deletes find objects
 	switch rapid.IntRange(0, 3).Draw(t, "preVersioning") {
-	case 1:
+	case 1, 2:
 		cfg.Prelude = append(cfg.Prelude, prog.Op{Kind: prog.OpSetVersioning, B: 0, Status: "Enabled"})
-	case 2:
+	case 3:
 		cfg.Prelude = append(cfg.Prelude, prog.Op{Kind: prog.OpSetVersioning, B: 0, Status: "Suspended"})
 	}
 	cfg.Prelude = append(cfg.Prelude,
 		prog.Op{Kind: prog.OpPut, B: 0, K: rapid.IntRange(0, 2).Draw(t, "preKey0"), Body: &gen.BodySpec{Kind: "rand", Len: 5, Seed: 1}},
 		prog.Op{Kind: prog.OpPut, B: 1, K: rapid.IntRange(0, 2).Draw(t, "preKey1"), Body: &gen.BodySpec{Kind: "rand", Len: 1024, Seed: 0}})
 	c.Ops = cfg.Gen(t)
+	// a fifth of the plain deletes are followed by a delete of the then-current version of the same key
+	// (in a versioned bucket: the permanent delete of the delete marker just created)
+	var ops []prog.Op
+	for _, op := range c.Ops {
+		ops = append(ops, op)
+		if op.Kind == prog.OpDelete && op.Ver == "" && rapid.IntRange(0, 4).Draw(t, "thenDeleteCurrent") == 2 {
+			ops = append(ops, prog.Op{Kind: prog.OpDelete, B: op.B, K: op.K, Ver: "cur"})
+		}
+	}
+	c.Ops = ops
+	for i := range c.Ops {
+		// entries of one multi-delete depend on each other when they name the same key (the oracle treats the
+		// later ones as don't-cares): keep such requests, but only in a quarter of the multi-deletes
+		if c.Ops[i].Kind == prog.OpDeleteObjects && rapid.IntRange(0, 3).Draw(t, "allowRepeatedKeys") != 1 {
+			seen := map[int]bool{}
+			var es []prog.DelSpec
+			for _, e := range c.Ops[i].Entries {
+				if !seen[e.K] {
+					seen[e.K] = true
+					es = append(es, e)
+				}
+			}
+			c.Ops[i].Entries = es
+		}
+	}
 	for i := range c.Ops {
 		// version references mostly name versions that do not exist; keep a third of them
 		switch c.Ops[i].Kind {
@@ -271,6 +296,8 @@ type wantEvent struct {
 	// AltName: the event name pithos is known to use instead (KF-C22-1: the permanent delete of a version that
 	// is a delete marker is reported as "...DeleteMarkerCreated"); consulted only when the matcher is enabled.
 	AltName string
+	// Repeat: an earlier entry of the same multi-delete request names the same key.
+	Repeat bool
 	// Optional: the successful call changed nothing (delete of an absent key / version). The
 	// property speaks of mutations; whether a no-op produces an event is a don't-care.
 	Optional bool
@@ -799,12 +826,22 @@ func (h *harness) finish(c prog.Concrete, r prog.Result, versioned bool, noop, m
 		add(removed(marker), c.Key, noop[0])
 		alt(markerVer[0])
 	case prog.OpDeleteObjects:
+		seen := map[string]bool{}
 		for i, e := range r.Entries {
-			if !e.Deleted || i >= len(c.Entries) {
+			if i >= len(c.Entries) {
+				break
+			}
+			repeat := seen[c.Entries[i].Key]
+			seen[c.Entries[i].Key] = true
+			if !e.Deleted {
 				continue
 			}
 			marker := c.Entries[i].VersionID == nil && versioned
 			add(removed(marker), e.Key, noop[i])
+			if repeat {
+				h.want[len(h.want)-1].Repeat = true
+				continue
+			}
 			alt(markerVer[i])
 		}
 	}
@@ -857,11 +894,58 @@ func (h *harness) checkNewRows(step int, what string, rows map[string]row) {
 		}
 		got[rowKey(r.Dest, r.Event, r.Bucket, k)]++
 	}
-	// required and optional expectations
+	// expectations: every event has a list of acceptable row groups (exactly one of them must have been produced)
 	type group map[string]int
-	required := group{}
-	var optional []group
+	groupFor := func(w wantEvent, name string, classes bool) group {
+		g := group{}
+		cfg := h.cfg[w.Bucket]
+		matches := 0
+		for _, r := range cfg.Rules {
+			ok, why := eventMatches(r, name, w.Key)
+			if ok {
+				g[rowKey(dests[r.Dest%len(dests)], name, w.Bucket, w.Key)]++
+				matches++
+			}
+			if classes {
+				if ok {
+					h.o.Class("rule-match:" + why)
+				} else {
+					h.o.Class("rule-reject:" + why)
+				}
+			}
+		}
+		if cfg.EventBridge {
+			g[rowKey("eventbridge:"+w.Bucket, name, w.Bucket, w.Key)]++
+		}
+		if classes {
+			if cfg.EventBridge {
+				h.o.Class("eventbridge-entry")
+			}
+			if matches > 1 {
+				h.o.Class("event-matched-several-rules")
+			}
+			if len(cfg.Rules) == 0 && !cfg.EventBridge {
+				h.o.Class("event-on-bucket-without-configuration")
+			}
+			h.o.Class("event:" + name)
+		}
+		return g
+	}
+	var alts [][]group
+	var altKinds []string
 	for _, w := range h.want {
+		if w.Repeat {
+			// a later entry of one multi-delete request that names a key an earlier entry already named: its
+			// effect depends on what the earlier entry did (don't-care: nothing, or either removal event)
+			other := "s3:ObjectRemoved:Delete"
+			if w.Name == other {
+				other = "s3:ObjectRemoved:DeleteMarkerCreated"
+			}
+			alts = append(alts, []group{{}, groupFor(w, w.Name, false), groupFor(w, other, false)})
+			altKinds = append(altKinds, "repeat")
+			h.o.Class("multi-delete-entry-repeats-a-key")
+			continue
+		}
 		if w.AltName != "" && h.env.Known(matcherMarkerVersion) {
 			// known finding KF-C22-1: judge the step under the name pithos is known to use
 			if ruleSetDistinguishes(h.cfg[w.Bucket], w.Name, w.AltName, w.Key) {
@@ -869,83 +953,78 @@ func (h *harness) checkNewRows(step int, what string, rows map[string]row) {
 			}
 			w.Name = w.AltName
 		}
-		g := group{}
-		cfg := h.cfg[w.Bucket]
-		matches := 0
-		for _, r := range cfg.Rules {
-			ok, why := eventMatches(r, w.Name, w.Key)
-			if ok {
-				g[rowKey(dests[r.Dest%len(dests)], w.Name, w.Bucket, w.Key)]++
-				matches++
-				h.o.Class("rule-match:" + why)
-			} else {
-				h.o.Class("rule-reject:" + why)
-			}
-		}
-		if cfg.EventBridge {
-			g[rowKey("eventbridge:"+w.Bucket, w.Name, w.Bucket, w.Key)]++
-			h.o.Class("eventbridge-entry")
-		}
-		if matches > 1 {
-			h.o.Class("event-matched-several-rules")
-		}
-		if len(cfg.Rules) == 0 && !cfg.EventBridge {
-			h.o.Class("event-on-bucket-without-configuration")
-		}
-		h.o.Class("event:" + w.Name)
-		if w.Optional {
-			if len(g) > 0 {
-				optional = append(optional, g)
-			}
-			continue
-		}
-		for k, n := range g {
-			required[k] += n
+		g := groupFor(w, w.Name, true)
+		if w.Optional && len(g) > 0 {
+			alts = append(alts, []group{{}, g})
+			altKinds = append(altKinds, "noop")
+		} else if !w.Optional {
+			alts = append(alts, []group{g})
+			altKinds = append(altKinds, "required")
 		}
 	}
 	h.o.Sub++
-	rest := group{}
-	for k, n := range got {
-		rest[k] = n
-	}
-	for k, n := range required {
-		if rest[k] < n {
-			h.o.Failf("step %d (%s): committed mutation without its outbox row: expected %d x [%s], found %d; new rows %v, expected %v (+%d optional groups)", step, what, n, k, rest[k], got, required, len(optional))
-			return
-		}
-		rest[k] -= n
-		if rest[k] == 0 {
-			delete(rest, k)
-		}
-	}
-	// what is left must be exactly the union of some of the optional groups
-	ok := false
-	for mask := 0; mask < 1<<len(optional) && !ok; mask++ {
+	choice := make([]int, len(alts))
+	matched := false
+	for {
 		sum := group{}
-		for i, g := range optional {
-			if mask&(1<<i) != 0 {
-				for k, n := range g {
-					sum[k] += n
-				}
+		for i, c := range choice {
+			for k, n := range alts[i][c] {
+				sum[k] += n
 			}
 		}
-		ok = len(sum) == len(rest)
+		matched = len(sum) == len(got)
 		for k, n := range sum {
-			if rest[k] != n {
-				ok = false
+			if got[k] != n {
+				matched = false
 			}
 		}
-		if ok && len(optional) > 0 {
-			if mask == 0 {
+		if matched {
+			break
+		}
+		i := 0
+		for ; i < len(choice); i++ {
+			choice[i]++
+			if choice[i] < len(alts[i]) {
+				break
+			}
+			choice[i] = 0
+		}
+		if i == len(choice) {
+			break
+		}
+	}
+	if !matched {
+		required := group{}
+		open := 0
+		for i, a := range alts {
+			if altKinds[i] == "required" {
+				for k, n := range a[0] {
+					required[k] += n
+				}
+			} else {
+				open++
+			}
+		}
+		for k, n := range required {
+			if got[k] < n {
+				h.o.Failf("step %d (%s): committed mutation without its outbox row: expected %d x [%s], found %d; new rows %v, required %v (+%d don't-care events)", step, what, n, k, got[k], got, required, open)
+				return
+			}
+		}
+		h.o.Failf("step %d (%s): outbox rows without a committed mutation x matching rule: new rows %v, required %v (+%d don't-care events)", step, what, got, required, open)
+		return
+	}
+	for i, c := range choice {
+		switch altKinds[i] {
+		case "noop":
+			if c == 0 {
 				h.o.Count("dontcare:no-op-delete:no-event", 1)
 			} else {
 				h.o.Count("dontcare:no-op-delete:event-emitted", 1)
 			}
+		case "repeat":
+			h.o.Count(fmt.Sprintf("dontcare:repeated-key-in-multi-delete:alternative-%d", c), 1)
 		}
-	}
-	if !ok {
-		h.o.Failf("step %d (%s): outbox rows without a committed mutation x matching rule: unexpected %v; new rows %v, required %v, %d optional groups", step, what, rest, got, required, len(optional))
-		return
 	}
 	// register the new committed entries and give each its publisher script
 	h.pub.mu.Lock()
